@@ -167,6 +167,12 @@ func TestVerifC04(t *testing.T) {
 		// instance secrets: the four key-encryption keys of every keystore
 		var inst []c04Secret
 		var pubKeys []*snacl.CryptoKey
+		// keys anyone has: all-zero and all-0xFF (a key that was wiped before it was used to seal a blob)
+		var zeroKey, ffKey snacl.CryptoKey
+		for i := range ffKey {
+			ffKey[i] = 0xFF
+		}
+		pubKeys = append(pubKeys, &zeroKey, &ffKey)
 		wasLocked := !m.Unlocked
 		if wasLocked && len(m.Ks) > 0 {
 			if err := in.km.Unlock([]byte(wPass[m.Priv])); err != nil {
